@@ -7,6 +7,7 @@ import (
 	"flag"
 	"fmt"
 	"os"
+	"os/exec"
 	"path/filepath"
 	"sort"
 	"strconv"
@@ -23,6 +24,73 @@ type PropConfig struct {
 	Assumptions []string `json:"assumptions"`
 	NotDecided  []string `json:"not_decided"`
 	Level       string   `json:"level,omitempty"`
+	// Bounded: a bounded stand-in run on the real code (labelled bounded, never counted as proved)
+	Bounded *BoundedCfg `json:"bounded,omitempty"`
+}
+
+type BoundedCfg struct {
+	Pkg      string            `json:"pkg"`       // package directory relative to the repository
+	TestFile string            `json:"test_file"` // harness (in-package test) injected with go test -overlay
+	Test     string            `json:"test"`
+	Quick    map[string]string `json:"quick_env"`
+	Thorough map[string]string `json:"thorough_env"`
+	What     string            `json:"what"`
+}
+
+type boundedResult struct {
+	ran                                           bool
+	histories, exhaustive, nontrivial, failures int
+	bounds                                        string
+	samples, fails                                []string
+	raw                                           string
+	secs                                          float64
+}
+
+func runBounded(verif string, b *BoundedCfg, thorough bool) *boundedResult {
+	res := &boundedResult{}
+	env := b.Quick
+	if thorough {
+		env = b.Thorough
+	}
+	cmd := exec.Command(filepath.Join(verif, "bounded", "run.sh"), b.Pkg, filepath.Join(verif, b.TestFile), b.Test)
+	cmd.Env = os.Environ()
+	for k, v := range env {
+		cmd.Env = append(cmd.Env, k+"="+v)
+	}
+	t0 := time.Now()
+	out, _ := cmd.CombinedOutput()
+	res.secs = time.Since(t0).Seconds()
+	res.raw = string(out)
+	for _, l := range strings.Split(res.raw, "\n") {
+		switch {
+		case strings.HasPrefix(l, "BOUNDED-STATS "):
+			res.ran = true
+			for _, f := range strings.Fields(l)[1:] {
+				kv := strings.SplitN(f, "=", 2)
+				if len(kv) != 2 {
+					continue
+				}
+				n, _ := strconv.Atoi(kv[1])
+				switch kv[0] {
+				case "histories":
+					res.histories = n
+				case "exhaustive_histories":
+					res.exhaustive = n
+				case "distinct_nontrivial":
+					res.nontrivial = n
+				case "failures":
+					res.failures = n
+				case "bounds":
+					res.bounds = kv[1]
+				}
+			}
+		case strings.HasPrefix(l, "BOUNDED-SAMPLE "):
+			res.samples = append(res.samples, strings.TrimPrefix(l, "BOUNDED-SAMPLE "))
+		case strings.HasPrefix(l, "BOUNDED-FAIL "):
+			res.fails = append(res.fails, strings.TrimPrefix(l, "BOUNDED-FAIL "))
+		}
+	}
+	return res
 }
 
 type KnownFinding struct {
@@ -312,12 +380,44 @@ func cmdCheck(mode string, args []string) {
 			}
 		}
 	}
+	// ---- bounded stand-in (real code, stated bound; never counted as proved) ----
+	var bres *boundedResult
+	if cfg.Bounded != nil {
+		bres = runBounded(*verif, cfg.Bounded, thorough)
+		if !bres.ran {
+			violations++
+			os.MkdirAll(replayDir, 0o755)
+			f := filepath.Join(replayDir, "bounded_harness.json")
+			rb, _ := json.MarshalIndent(map[string]interface{}{"property": *prop, "obligation": "bounded:harness", "reason": "the bounded harness did not complete on the real code (panic, hang or build failure)", "output": trunc(bres.raw, 4000)}, "", " ")
+			os.WriteFile(f, rb, 0o644)
+			fmt.Printf("VIOLATION property=%s replay=%s obligation=bounded:harness reason=bounded harness did not complete on the real code\n", *prop, f)
+		}
+		for i, fl := range bres.fails {
+			hist := ""
+			for _, w := range strings.Fields(fl) {
+				if strings.HasPrefix(w, "history=") {
+					hist = strings.TrimPrefix(w, "history=")
+				}
+			}
+			if kf, isK := knownOpen["bounded:"+hist]; isK {
+				fmt.Printf("KNOWN-FINDING: property=%s %s (history %s)\n", *prop, kf.What, hist)
+				continue
+			}
+			violations++
+			os.MkdirAll(replayDir, 0o755)
+			f := filepath.Join(replayDir, fmt.Sprintf("bounded_%d.json", i))
+			rb, _ := json.MarshalIndent(map[string]interface{}{"property": *prop, "obligation": "bounded:" + hist, "failing_history": hist, "observed": fl,
+				"how_to_rerun": fmt.Sprintf("VERIF_HISTORY=%s %s/bounded/run.sh %s %s/%s %s", hist, *verif, cfg.Bounded.Pkg, *verif, cfg.Bounded.TestFile, cfg.Bounded.Test)}, "", " ")
+			os.WriteFile(f, rb, 0o644)
+			fmt.Printf("VIOLATION property=%s replay=%s obligation=bounded:%s reason=%s\n", *prop, f, hist, fl)
+		}
+	}
 	if nLocked == 0 {
 		fmt.Fprintln(os.Stderr, "no claimed obligations (empty lock): nothing is established")
 		os.Exit(2)
 	}
 	writeEvidence(*verif, &cfg, *tier, p, vcs, jobs, time.Since(t0).Seconds(), violations, "", r, &evidenceExtra{
-		locked: nLocked, discharged: discharged, skipped: skipped, undecidedNew: undecidedNew, refutedNew: refutedNew, unclaimed: unclaimed, lemmas: lemmaRes, known: knownOpen, lockedSet: locked,
+		locked: nLocked, discharged: discharged, skipped: skipped, undecidedNew: undecidedNew, refutedNew: refutedNew, unclaimed: unclaimed, lemmas: lemmaRes, known: knownOpen, lockedSet: locked, bounded: bres,
 	})
 	fmt.Printf("property %s: %d/%d claimed obligations discharged, %d unclaimed, %d new-undecided, %d new-refuted, %.1fs\n",
 		*prop, discharged, nLocked, len(unclaimed), len(undecidedNew), len(refutedNew), time.Since(t0).Seconds())
@@ -434,6 +534,7 @@ type evidenceExtra struct {
 	lemmas                      []LemmaResult
 	known                       map[string]KnownFinding
 	lockedSet                   map[string]bool
+	bounded                     *boundedResult
 }
 
 func writeEvidence(verif string, cfg *PropConfig, tier string, p *Program, vcs []*FuncVC, jobs []*OblResult, wall float64, violations int, fatal string, r *Runner, ex *evidenceExtra) {
@@ -544,8 +645,32 @@ func writeEvidence(verif string, cfg *PropConfig, tier string, p *Program, vcs [
 		cov["checker_cmd"] = "govc check"
 		cov["trusted_base"] = []string{}
 	}
+	level := "proof"
+	if cfg.Level != "" {
+		level = cfg.Level
+	}
+	if ex != nil && ex.bounded != nil && cfg.Bounded != nil {
+		b := ex.bounded
+		cov["evaluations"] = b.histories
+		cov["distinct_nontrivial"] = b.nontrivial
+		cov["exhaustive"] = b.exhaustive > 0
+		cov["exhaustive_histories"] = b.exhaustive
+		cov["bounded_failures"] = b.failures
+		cov["bounds"] = b.bounds
+		cov["rule"] = cfg.Bounded.What
+		cov["bounded_seconds"] = b.secs
+		var hs []interface{}
+		for _, h := range b.samples {
+			hs = append(hs, map[string]string{"bounded_history": h})
+		}
+		if old, ok := cov["samples"].([]interface{}); ok {
+			hs = append(hs, old...)
+		}
+		cov["samples"] = hs
+		cov["explanation"] = "the property as a whole is decided by the BOUNDED run only (not a proof); the obligations counted under obligations/discharged are deductive proofs of the per-function contracts listed under functions_under_contract"
+	}
 	ev := map[string]interface{}{
-		"property_id": cfg.ID, "tier": tier, "seed": seed, "level": "proof", "coverage": cov,
+		"property_id": cfg.ID, "tier": tier, "seed": seed, "level": level, "coverage": cov,
 		"assumptions": assumptions, "wall_s": wall, "violations": violations,
 	}
 	os.MkdirAll(filepath.Join(verif, "evidence"), 0o755)
